@@ -910,7 +910,7 @@ func (w *world) perform(a *actor, ks kindSpec, tgt *vclient.Client, j job, expec
 		m = vclient.Msg{"type": "offer", "id": streamID, "label": "camera", "source": src, "sdp": w.e.offer}
 	}
 	tokensBefore := tokenNames(w.g)
-	pn, _ := json.Marshal(probeNote{Kind: ks.name, State: a.state, Perms: a.permN, Expected: expected, Job: j.String()})
+	pn, _ := json.Marshal(probeNote{Kind: ks.name, State: a.state, Perms: a.permN, Expected: expected, Job: j.String(), Tag: w.tag})
 	w.e.run.Note("PROBE " + string(pn))
 	mm := vclient.Msg{}
 	for k, v := range m {
